@@ -1305,7 +1305,14 @@ func runChild(t *tr.Trace, seed uint64, from, rounds int, perBatch time.Duration
 		}
 		for _, f := range br.Fails {
 			t.Fail("C10", f[0], f[1])
+			if f[0] == "registered_group_kept" || f[0] == "unique_ids" || f[0] == "membership_consistent" {
+				// the same observation as a statement of C13: concurrent joins, leaves,
+				// deletions and reloads left the membership state of the NAME corrupted
+				// (a member of an object nobody can find, two objects for one name)
+				t.Fail("C13", "membership_not_corrupted", f[0]+": "+f[1])
+			}
 		}
+		t.Monitors["C13.membership_not_corrupted"] += br.Checked["C10.registered_group_kept"]
 	}
 	err = cmd.Wait()
 	timer.Stop()
